@@ -295,9 +295,18 @@ def rot_cases(draw):
                 shift=draw(st.sampled_from([0.0, 0.0, 0.7, -1.3])))
 
 
+# ------------------------------------------------------------------ coverage-guided (libFuzzer, fuzz/fuzz_maps.cpp, oracle "shift")
+from vlib import fuzzrun  # noqa: E402
+
+MAPS_CORPUS = [bytes(range(200)), bytes([0] * 64), bytes([255, 3, 128, 64] * 64), bytes([17, 200, 90] * 100) + bytes([1, 9, 2, 3, 1, 0])]
+run_fuzzshift = fuzzrun.make_runner("c02", "VERIF_FUZZMAPS", MAPS_CORPUS, max_len=4096, env_extra={"VERIF_MAPS_ORACLE": "shift"})
+
+
 def subs(tier):
     return [
-        Sub("weights", weights_cases(), run_weights, quick=5120, thorough=4096, enum=weights_enum),
+        Sub("fuzzshift", st.just({}), run_fuzzshift, quick=1, thorough=1, needs=("fuzzmaps",),
+                enum=lambda t: fuzzrun.campaigns(t, 12000, 1500000), max_wall={"quick": 400, "thorough": 3000}),
+            Sub("weights", weights_cases(), run_weights, quick=5120, thorough=4096, enum=weights_enum),
         Sub("shift", shift_cases(), run_shift, quick=7500, thorough=60000),
         Sub("poly", poly_cases(), run_poly, quick=7500, thorough=60000),
         Sub("rot", rot_cases(), run_rot, quick=1500, thorough=6000),
@@ -305,6 +314,7 @@ def subs(tier):
 
 
 def finalize(cov, agg, tier):
+    fuzzrun.finalize(cov, agg, "fuzzshift")
     g = agg.get("poly")
     if g is not None:
         ne = g["metrics"].get("negctl_err", 0.0)
